@@ -8,7 +8,7 @@ import (
 	"go/types"
 	"strings"
 
-	"golang.org/x/tools/go/ssa"
+	"trzszlint/xssa"
 )
 
 func init() {
